@@ -52,3 +52,46 @@ package secec
 //@   ensures dersig(data) ==> val(result0) == fn(dersig_r(data)) && val(result1) == fn(dersig_s(data))
 //@   ensures !dersig(data) ==> result0 == nil && result1 == nil
 //@   fresh result0, result1
+//@
+//@ type PublicKey
+//@   inv !isnil(self.point) && self.point.isValid && abs(self.point) != O
+//@   inv len(self.pointBytes) == 65 && self.pointBytes[0] == 4 && os2ip(self.pointBytes[1:33]) == lift(affx(abs(self.point))) && os2ip(self.pointBytes[33:65]) == lift(affy(abs(self.point)))
+//@
+//@ type PrivateKey
+//@   inv !isnil(self.scalar) && val(self.scalar) != 0 && !isnil(self.publicKey) && abs(self.publicKey.point) == smul(val(self.scalar), G)
+//@
+//@ func newPublicKeyFromPoint
+//@   props C10 C18
+//@   requires pt.isValid
+//@   split case abs(pt) == O
+//@   ensures abs(pt) == O ==> result0 == nil && result1 != nil
+//@   ensures abs(pt) != O ==> result1 == nil && result0.point == pt
+//@   fresh result0
+//@
+//@ func NewPublicKeyFromPoint
+//@   props C10 C18
+//@   panics !point.isValid
+//@   split case abs(point) == O
+//@   ensures abs(point) == O ==> result0 == nil && result1 != nil
+//@   ensures abs(point) != O ==> result1 == nil && abs(result0.point) == abs(point) && fresh(result0.point)
+//@   fresh result0
+//@
+//@ func NewPublicKey
+//@   props C10 C12 C18
+//@   split case sec1c(key)
+//@   split case sec1u(key)
+//@   ensures (sec1c(key) || sec1u(key)) <==> (result1 == nil)
+//@   ensures sec1c(key) ==> affx(abs(result0.point)) == fp(os2ip(key[1:33])) && lift(affy(abs(result0.point))) % 2 == key[0] % 2
+//@   ensures sec1u(key) ==> affx(abs(result0.point)) == fp(os2ip(key[1:33])) && affy(abs(result0.point)) == fp(os2ip(key[33:65]))
+//@   ensures !(sec1c(key) || sec1u(key)) ==> result0 == nil
+//@   using aff_coords(val(pt.x), val(pt.y))
+//@   fresh result0
+//@
+//@ func ParseASN1PublicKey
+//@   props C12 C10
+//@   split case derspki(data) && (sec1c(derspki_key(data)) || sec1u(derspki_key(data)))
+//@   ensures (derspki(data) && (sec1c(derspki_key(data)) || sec1u(derspki_key(data)))) <==> (result1 == nil)
+//@   ensures (derspki(data) && sec1c(derspki_key(data))) ==> affx(abs(result0.point)) == fp(os2ip(derspki_key(data)[1:33])) && lift(affy(abs(result0.point))) % 2 == derspki_key(data)[0] % 2
+//@   ensures (derspki(data) && sec1u(derspki_key(data))) ==> affx(abs(result0.point)) == fp(os2ip(derspki_key(data)[1:33])) && affy(abs(result0.point)) == fp(os2ip(derspki_key(data)[33:65]))
+//@   ensures !(derspki(data) && (sec1c(derspki_key(data)) || sec1u(derspki_key(data)))) ==> result0 == nil
+//@   fresh result0
